@@ -107,6 +107,17 @@ func (s *scanner) CurrentPos() int64 {
 }
 
 func (s *scanner) ReadIndirectObject() (Native, Reference, error) {
+	obj, ref, err := s.readIndirectObject()
+	if err == io.EOF || err == io.ErrUnexpectedEOF {
+		// the input ended inside the object: the file is truncated
+		err = &MalformedFileError{
+			Err: errors.New("unexpected EOF while reading object"),
+		}
+	}
+	return obj, ref, err
+}
+
+func (s *scanner) readIndirectObject() (Native, Reference, error) {
 	number, err := s.ReadInteger()
 	if err != nil {
 		return nil, 0, err
